@@ -253,9 +253,11 @@ func (q *queuesInv) After(m *Machine, a *Action, o Outcome) error {
 		for e := b.Epoch; e < now.Epoch; e++ {
 			q.closedPending = append(q.closedPending, e)
 		}
-		if now.Epoch > b.Epoch {
-			// the chain forgets "previous keys" at the EndBlock that follows an epoch end; a
-			// replacement in the block in progress already belongs to the new epoch
+		if len(due) > 0 {
+			// the chain forgets "previous keys" in the EndBlock that follows an epoch end, i.e. in
+			// the EndBlock that has just run: a replacement made earlier in that very block (after
+			// the BeginBlock that closed the epoch) is forgotten with it, and the next replacement
+			// is a first one again
 			q.replacedInEpoch = map[int]int64{}
 		}
 		if now.Epoch-b.Epoch > 1 {
